@@ -24,6 +24,9 @@
 #include "algorithms/openmp/tbfopenmpalgorithmtsm.hpp"
 #include "mock_gomp.h"
 #endif
+#ifdef USE_STARPU
+#include "algorithms/smstarpu/tbfsmstarpualgorithmtsm.hpp"   // <starpu.h> resolves to harness/mock_starpu/starpu.h
+#endif
 
 #if PERIODIC
 #include "algorithms/periodic/tbfalgorithmperiodictoptreetsm.hpp"
@@ -182,6 +185,16 @@ int main(){
             algo->execute(*cs.tree, int(kv(ts, "flags", 63)));
             flushLog();
         }
+#ifdef USE_STARPU
+        else if(op == "exec" && ts.size() > 1 && ts[1] == "starputsm"){
+            mock_starpu_configure(int(kv(ts, "sched", 0)), (unsigned long)kv(ts, "seed", 1), int(kv(ts, "workers", 1)));
+            {
+                std::unique_ptr<TbfSmStarpuAlgorithmTsm<RealType, Kernel, SpaceIndex>> algo(new TbfSmStarpuAlgorithmTsm<RealType, Kernel, SpaceIndex>(*cs.config, kv(ts, "upper", 2)));
+                algo->execute(*cs.tree, int(kv(ts, "flags", 63)));
+            }
+            flushLog();
+        }
+#endif
 #ifdef USE_OMP
         else if(op == "exec" && ts.size() > 1 && ts[1] == "omptsm"){
             MockConfig mc; mc.schedule = int(kv(ts, "sched", 0)); mc.seed = (unsigned long)kv(ts, "seed", 1); mc.nworkers = int(kv(ts, "workers", 1));
